@@ -1,6 +1,8 @@
 import Proofs.Superimpose
 import Proofs.SuperimposeLifetime
 import Proofs.SetSyntax
+import Proofs.FlushOrder
+import Proofs.FlushSection
 /-!
 C15 — syntax highlighting only recolours foregrounds, by the file's language.
 
@@ -516,6 +518,211 @@ example :
     ((runP env (.memoOrGetSyntax "syntax_by_extension" (.derived "extension")) (initialP env false)
         (secs "CMakeLists.txt" "notes.txt")).2.map fun q => q.used.map Prod.fst) =
       [some "CMake", some "CMake", some "CMake", some "CMake"] := by
+  decide
+
+end C15
+
+
+/-! ### Which highlighter paints the lines that are still buffered at a file boundary
+
+`handle_diff_header_minus_line` calls `set_syntax(<next file>)` BEFORE it flushes the buffered lines of the
+previous file (`minusHeaderStmts`, generated). The lines are nevertheless painted in their own file's language,
+because the flush (`paint_buffered_minus_and_plus_lines`) and the single-line painters use the highlighter that
+exists — created by `set_highlighter` at the last hunk header — and never look at `self.syntax`. The bodies of
+those painter methods and the statement order of `handle_hunk_line` are regenerated from the source
+(`Generated/PainterFlush.lean`) and interpreted by `Superimpose.Flush` (`DeltaModel/FlushOrder.lean`). -/
+namespace C15
+open Superimpose Superimpose.Lifetime Superimpose.Flush Generated.PainterFlush
+
+/-- **The flush never re-creates the highlighter.** `Painter::paint_buffered_minus_and_plus_lines`, run from its
+translated body on ANY painter state (`s.st.syn`: whatever `set_syntax` has stored meanwhile; `s.held`: whatever
+any further syntax-holding field holds) and under any meaning of what the translator did not understand (`env`),
+feeds the buffered lines through the highlighter that exists, in order, and clears the buffers — nothing else.
+Breaks when the body creates a highlighter (directly or through a helper), paints with another one, or keeps
+lines buffered. -/
+theorem flush_paints_with_the_existing_highlighter {σ : Type} [DecidableEq σ] (env : FEnv σ)
+    (one : Kind × Hl σ) (s : FState σ) :
+    (call env painterMethods "paint_buffered_minus_and_plus_lines" one s).1.st =
+        { s.st with hl := (paintBuf s.st.hl s.st.buffered).1, buffered := [] } ∧
+      (call env painterMethods "paint_buffered_minus_and_plus_lines" one s).2 =
+        (paintBuf s.st.hl s.st.buffered).2 := by
+  obtain ⟨st, held⟩ := s
+  obtain ⟨syn, hl, mn, pn, mm, pm, un, buf, cur, ln⟩ := st
+  cases buf with
+  | nil =>
+    simp [call, bodyOf, painterMethods, List.lookup, Flush.execStmts, Flush.execStmt, evalCond, paintBuf]
+  | cons e rest =>
+    simp [call, bodyOf, painterMethods, List.lookup, Flush.execStmts, Flush.execStmt, evalCond]
+
+/-- `Painter::paint_zero_line` and `Painter::syntax_highlight_and_paint_line` (hunk-header fragment) send their
+one line through the highlighter that exists, whatever `self.syntax` and any further field hold. -/
+theorem single_lines_painted_with_the_existing_highlighter {σ : Type} [DecidableEq σ] (env : FEnv σ)
+    (one : Kind × Hl σ) (s : FState σ) :
+    ((call env painterMethods "paint_zero_line" one s).1.st = { s.st with hl := feed s.st.hl } ∧
+      (call env painterMethods "paint_zero_line" one s).2 = [⟨one.1, s.st.hl, one.2⟩]) ∧
+    ((call env painterMethods "syntax_highlight_and_paint_line" one s).1.st = { s.st with hl := feed s.st.hl } ∧
+      (call env painterMethods "syntax_highlight_and_paint_line" one s).2 = [⟨one.1, s.st.hl, one.2⟩]) := by
+  simp [call, bodyOf, painterMethods, List.lookup, Flush.execStmts, Flush.execStmt]
+
+/-- `Painter::set_highlighter` creates a fresh highlighter for the syntax stored by the last `set_syntax`. -/
+theorem set_highlighter_takes_the_current_syntax {σ : Type} [DecidableEq σ] (env : FEnv σ)
+    (one : Kind × Hl σ) (s : FState σ) :
+    (call env painterMethods "set_highlighter" one s).1.st = { s.st with hl := some (s.st.syn, 0) } ∧
+      (call env painterMethods "set_highlighter" one s).2 = [] := by
+  simp [call, bodyOf, painterMethods, Flush.execStmts, Flush.execStmt, evalCond, synOf]
+
+/-- Hence the language of the highlighter changes nowhere but in `set_highlighter`: the flush keeps it. -/
+theorem flush_keeps_the_highlighters_language {σ : Type} [DecidableEq σ] (env : FEnv σ)
+    (one : Kind × Hl σ) (s : FState σ) :
+    (call env painterMethods "paint_buffered_minus_and_plus_lines" one s).1.st.hl.map Prod.fst =
+      s.st.hl.map Prod.fst := by
+  rw [(flush_paints_with_the_existing_highlighter env one s).1]
+  have h : ∀ (buf : List (Hl σ)) (hl : Option (Hl σ)), (paintBuf hl buf).1.map Prod.fst = hl.map Prod.fst := by
+    intro buf
+    induction buf with
+    | nil => intro hl; rfl
+    | cons e rest ih =>
+      intro hl
+      simp only [paintBuf]
+      rw [ih]
+      cases hl with
+      | none => rfl
+      | some x => rfl
+  exact h _ _
+
+/-- The translated painter methods are plain (what `Lifetime.execStmt` says by hand). -/
+theorem painter_methods_plain {σ : Type} [DecidableEq σ] (env : FEnv σ) : Plain env painterMethods :=
+  { flush := fun one s => flush_paints_with_the_existing_highlighter env one s
+    setHl := fun one s => set_highlighter_takes_the_current_syntax env one s
+    zero := fun one s => (single_lines_painted_with_the_existing_highlighter env one s).1
+    frag := fun one s => (single_lines_painted_with_the_existing_highlighter env one s).2 }
+
+/-- The painter statements of `handle_hunk_line`, in source order: flush when a buffer is over its limit, then the
+pending hunk header; a removed line flushes first when the previous line was an added one, then is buffered; an
+added line is buffered; an unchanged line flushes, then is painted at once; anything else flushes. -/
+theorem hunk_line_statement_order : LineOrder := by
+  unfold LineOrder
+  decide
+
+/-- Where highlighters come from: of the painter methods that touch syntax / highlighter only `set_highlighter`
+creates one (no other method does, neither directly nor through a call), none of them calls another, the
+painter has no further field holding a syntax or a highlighter, and outside paint.rs the field is accessed
+directly only by the merge-conflict painter. -/
+theorem highlighter_creation_inventory :
+    (painterMethods.filter fun m => createsL m.2).map Prod.fst = ["set_highlighter"] ∧
+    painterMethods.map Prod.fst = ["set_highlighter", "paint_buffered_minus_and_plus_lines", "paint_zero_line",
+      "syntax_highlight_and_paint_line"] ∧
+    painterCalls = [] ∧ trackedFields = ["syntax", "highlighter"] ∧
+    directFieldUses = [("src/handlers/merge_conflict.rs", "paint_buffered_merge_conflict_lines", "highlighter", 1)] := by
+  decide
+
+/-- The functions that flush or paint a zero line (each is a `flush` / line event of the model). -/
+theorem flush_sites_inventory :
+    flushSites.map (fun x => (x.1, x.2.1)) =
+      [("src/delta.rs", "consume"), ("src/delta.rs", "emit_line_unchanged"),
+       ("src/handlers/commit_meta.rs", "handle_commit_meta_header_line"),
+       ("src/handlers/diff_header.rs", "handle_diff_header_minus_line"),
+       ("src/handlers/diff_header.rs", "handle_diff_header_plus_line"),
+       ("src/handlers/diff_header.rs", "should_write_generic_diff_header_header_line"),
+       ("src/handlers/diff_header_diff.rs", "handle_diff_header_diff_line"),
+       ("src/handlers/hunk.rs", "handle_hunk_line"), ("src/handlers/hunk.rs", "handle_hunk_line"),
+       ("src/handlers/hunk_header.rs", "emit_hunk_header_line"),
+       ("src/handlers/merge_conflict.rs", "enter_merge_conflict"),
+       ("src/handlers/mod.rs", "handle_additional_cases"),
+       ("src/handlers/submodule.rs", "handle_submodule_short_line")] := by
+  decide
+
+/-- The machine that interprets the source (`runF`: painter methods, `handle_hunk_line`, the three header
+handlers — all generated) paints, on every event sequence and from every painter state, exactly what
+`Lifetime.run` paints on the mapped events, with the same highlighters. (So the driver op
+`superimpose.lifetime`, which executes `Lifetime.run`, is tied to the generated method bodies as well.) -/
+theorem flush_machine_follows_source {σ : Type} [DecidableEq σ] (env : FEnv σ) (s : FState σ)
+    (evs : List FEvent) :
+    (runF env painterMethods s evs).1.st = (run env.lang s.st (toEventsAll evs)).1 ∧
+      (runF env painterMethods s evs).2 = (run env.lang s.st (toEventsAll evs)).2 :=
+  runF_sim env painterMethods (painter_methods_plain env) hunk_line_statement_order evs s
+
+/-- **Every line is painted with the highlighter of the file it belongs to** — for git and for plain `diff -u`
+streams (`u`), from ANY painter state that satisfies the invariant (any history) and whatever any further field
+holds: all elements painted after the header lines `--- m` / `+++ p` of a file — hunk-header fragments, hunk
+lines, and the removed / added lines that are still buffered when the NEXT file's `--- n` line arrives and are
+flushed by it after `set_syntax(n)` has already run — go through a highlighter created for the language of
+`m` / `p`'s own name, whatever `n` is; a fragment through a fresh one.
+This holds only because the highlighter is created at the hunk header and is not re-created at the flush
+(`flush_paints_with_the_existing_highlighter`); the order `set_syntax` → flush in the handler is generated. -/
+theorem buffered_lines_painted_with_their_files_language {σ : Type} [DecidableEq σ] (env : FEnv σ)
+    (u : Bool) (s : FState σ) (hs : Lifetime.Inv u .start s.st)
+    (m p mkm mkp n mkn : Option (List Char)) (body : List FEvent)
+    (hnf : ∀ e ∈ body, isFileFEvent e = false)
+    (hw : wf u .start (toEventsAll (.fileMinus m mkm :: .filePlus p mkp :: (body ++ [.fileMinus n mkn]))) = true) :
+    ∀ q ∈ (runF env painterMethods (runF env painterMethods s [.fileMinus m mkm, .filePlus p mkp]).1
+        (body ++ [.fileMinus n mkn])).2,
+      ∃ k, q.used = some (sectionLang env.lang m p, k) ∧ (q.kind = .fragment → k = 0) := by
+  obtain ⟨a, _⟩ := flush_machine_follows_source env s [.fileMinus m mkm, .filePlus p mkp]
+  obtain ⟨_, d⟩ := flush_machine_follows_source env
+    (runF env painterMethods s [.fileMinus m mkm, .filePlus p mkp]).1 (body ++ [.fileMinus n mkn])
+  rw [d, a]
+  have e1 : toEventsAll [FEvent.fileMinus m mkm, FEvent.filePlus p mkp] =
+      [Event.fileMinus m mkm, Event.filePlus p mkp] := rfl
+  have e2 : toEventsAll (body ++ [FEvent.fileMinus n mkn]) = toEventsAll body ++ [Event.fileMinus n mkn] := by
+    rw [toEventsAll_append]; rfl
+  have e3 : toEventsAll (.fileMinus m mkm :: .filePlus p mkp :: (body ++ [.fileMinus n mkn])) =
+      .fileMinus m mkm :: .filePlus p mkp :: (toEventsAll body ++ [.fileMinus n mkn]) := by
+    rw [← e2]; rfl
+  rw [e1, e2]
+  rw [e3] at hw
+  exact section_language env.lang u s.st hs m p mkm mkp n mkn (toEventsAll body)
+    (toEventsAll_no_file body hnf) hw
+
+/-- The painter methods as translated from the seeded change `C15-w6-05`: `set_highlighter` remembers the
+syntax it used in a field, and the flush and the zero-line painter first re-create the highlighter when
+`self.syntax` has changed since. -/
+def recreatingMethods : Methods :=
+  let setHl : List Stmt := [.ite .themeConfigured [.newHighlighter .currentSyntax, .record "highlighter_syntax"] []]
+  let ensure : List Stmt := [.ite (.recordedDiffers "highlighter_syntax") [.inline "set_highlighter" setHl] []]
+  [("set_highlighter", setHl),
+   ("ensure_highlighter_matches_syntax", ensure),
+   ("paint_buffered_minus_and_plus_lines",
+     [.ite .buffersEmpty [.ret] [], .inline "ensure_highlighter_matches_syntax" ensure, .paintBuffered .own, .clearBuffers]),
+   ("paint_zero_line", [.inline "ensure_highlighter_matches_syntax" ensure, .highlightOne .own]),
+   ("syntax_highlight_and_paint_line", [.highlightOne .own])]
+
+/-- Two languages. -/
+def twoLangs : Option (List Char) → String := fun n =>
+  if n = some "one.rs".toList then "Rust" else if n = some "two.py".toList then "Python" else "Plain Text"
+
+/-- A plain `diff -u` stream of two files with nothing between them, the first hunk ending in a removed and an
+added line; `sep`: a line between the files that flushes (`diff -u a b`, `diff --git …`, `Index: …`). -/
+def twoFiles (sep : Bool) : List FEvent :=
+  [.fileMinus (some "one.rs".toList) (some "one.rs".toList), .filePlus (some "one.rs".toList) (some "one.rs".toList),
+   .minusLine true false false, .plusLine false false] ++ (if sep then [.flush] else []) ++
+  [.fileMinus (some "two.py".toList) (some "two.py".toList), .filePlus (some "two.py".toList) (some "two.py".toList),
+   .plusLine true false, .flush]
+
+/-- Non-vacuity, and the order made visible: (1) the source as it is paints the two buffered lines of `one.rs`
+with the Rust highlighter although `self.syntax` is already Python when they are flushed; (2) with a flush that
+re-creates the highlighter when the syntax has changed (the seeded change) the same lines are painted in the NEXT
+file's language; (3) the same methods are harmless when a line that flushes comes first (`diff --git`, `diff -u
+a b`, `Index:` …) — it is exactly the order `set_syntax` → flush at the `--- ` line that matters. -/
+theorem recreating_at_flush_paints_with_the_next_files_language :
+    let env := plainEnv twoLangs
+    let langs (r : FState String × List (Painted String)) := r.2.map fun q => (q.kind, q.used.map Prod.fst)
+    langs (runF env painterMethods (initialF env true) (twoFiles false)) =
+      [(.fragment, some "Rust"), (.line, some "Rust"), (.line, some "Rust"),
+       (.fragment, some "Python"), (.line, some "Python")] ∧
+    (runF env painterMethods (initialF env true) ((twoFiles false).take 5)).1.st.syn = "Python" ∧
+    langs (runF env recreatingMethods (initialF env true) (twoFiles false)) =
+      [(.fragment, some "Rust"), (.line, some "Python"), (.line, some "Python"),
+       (.fragment, some "Python"), (.line, some "Python")] ∧
+    langs (runF env recreatingMethods (initialF env true) (twoFiles true)) =
+      [(.fragment, some "Rust"), (.line, some "Rust"), (.line, some "Rust"),
+       (.fragment, some "Python"), (.line, some "Python")] := by
+  decide
+
+/-- The hypotheses of `buffered_lines_painted_with_their_files_language` are satisfiable on that stream. -/
+example :
+    wf true .start (toEventsAll (twoFiles false)) = true ∧
+    (∀ e ∈ [FEvent.minusLine true false false, FEvent.plusLine false false], isFileFEvent e = false) := by
   decide
 
 end C15
